@@ -299,8 +299,9 @@ def translate(repo):
     out.append('def allowsText : List Nat := [%s]' % ', '.join(map(str, text_rows)))
     out.append('def requiredAttributes : List (Nat × List Nat) := [\n  %s]' % ',\n  '.join('(%d, %s)' % r for r in required_rows))
     out.append('def allowedAttributes : List (Nat × Option (List Nat)) := [\n  %s]' % ',\n  '.join('(%d, %s)' % r for r in attr_rows))
-    out.append('/-- keyword id of attribute id i (element.py: a[1].lower().replace(\'-\',\'\')), see theorem kw_table_ok -/')
-    out.append('def attrKw : List Nat := [%s]' % ', '.join(map(str, attr_kw)))
+    out.append('/-- keyword of attribute id i (element.py: a[1].lower().replace(\'-\',\'\')), as the numeral of the keyword string;')
+    out.append('    checked against the Lean model of that expression by theorem kw_table_ok -/')
+    out.append('def attrKw : List Nat := [\n  %s]' % ',\n  '.join('%d /- %s -/' % (num(kws.items[k]), kws.items[k]) for k in attr_kw))
     out.append('def tables : Tables := ⟨allowedChildren, allowsText, requiredAttributes, allowedAttributes, attrKw⟩')
     out.append('/-- all element ids (schema, grammar.py, factories) are below this -/')
     out.append('def nElems : Nat := %d' % len(elems))
@@ -326,7 +327,7 @@ def translate(repo):
     out.append('def elemName : List Nat := [\n  %s]' % ',\n  '.join('%d /- %s -/' % (num(n), n) for n in G.elem_names))
     out.append('/-- display name `prefix:local` of attribute id i -/')
     out.append('def attrName : List Nat := [\n  %s]' % ',\n  '.join('%d /- %s -/' % (num(n), n) for n in G.attr_names))
-    out.append('/-- keyword id -> keyword -/')
+    out.append('/-- all keywords (ascending numerals): the keyword universe swept by the harness -/')
     out.append('def kwName : List Nat := [\n  %s]' % ',\n  '.join('%d /- %s -/' % (num(k), k) for k in kws.items))
     out.append('def strs : Array String := #[%s]' % ', '.join(lstr(s) for s in strs.items))
     out.append('def defNames : Array String := #[%s]' % ', '.join(lstr(('m:' if d[0] else '') + d[1]) for d in defs.items))
